@@ -2,6 +2,7 @@
    element a resize happened in, and rewriting the offsets after it (UnsizedList::adjust_offsets). *)
 From SF Require Import Base.Prelude Gen.Generated Unsized.Types Unsized.Parse Unsized.Machine.
 From SF Require Import Unsized.Proofs.EncodeParse Unsized.Proofs.Mem Unsized.Proofs.Notify Unsized.Proofs.Flat Unsized.Proofs.Layout.
+From SF Require Import Unsized.Proofs.EnumFacts.
 Arguments Z.add : simpl never. Arguments Z.sub : simpl never. Arguments Z.mul : simpl never.
 Arguments Z.of_nat : simpl never. Arguments Z.pow : simpl never. Arguments Z.modulo : simpl never.
 
